@@ -251,6 +251,58 @@ def spring_limits(U, rep, tier):
            'joint limits change the joint force although every coordinate is inside its range', body)
 
 
+def spring_limits_mixed(U, rep, tier):
+  """R6.2 on MIXED stacks: a slide dof has a range for its displacement only, a hinge dof for its angle only.  The kernels
+  compute an angle and a displacement for EVERY dof of the stack; the one that does not belong to the dof's kind (the
+  rotation angle about a slide's axis, the offset along a hinge's axis -- both 0 in a consistent state, hence OUTSIDE a
+  range that does not contain 0) must not act: with every belonging coordinate inside its range the force equals the one
+  without limits, however the foreign comparisons turn out (they are decided `below the range`)."""
+  for fname, pats in (('_two_dof', ('sh', 'hs')), ('_three_dof', ('ssh', 'shh', 'hss', 'hhs', 'shs'))):
+    ndof = len(pats[0])
+    for pat in pats:
+      def body(pat=pat, ndof=ndof, fname=fname):
+        I = new_interp(U.repo)
+        _joint_contracts(I)
+        lk = Struct('Link', {'constraint_stiffness': sym('ks'), 'constraint_vel_damping': sym('kvd'),
+                             'constraint_limit_stiffness': sym('kls'), 'constraint_ang_damping': sym('kad')})
+        j, jd = T('j'), M('jd')
+        ang, vel = symarr('da', (ndof, 3)), symarr('dv', (ndof, 3))
+        for k, c in enumerate(pat):
+          (ang if c == 's' else vel)[k] = P_zeros((3,))
+        motion = Struct('Motion', {'ang': ang, 'vel': vel})
+        lo, hi = symarr('lo', (ndof,)), symarr('hi', (ndof,))
+        tau = symarr('tau', (ndof,))
+        angles = [sym('psi'), sym('theta'), sym('phi')][:ndof]
+        slides = [np.dot(j.f['pos'], vel[k]) for k in range(ndof)]
+        own = [slides[k] if c == 's' else angles[k] for k, c in enumerate(pat)]
+        foreign = {Rat.lift(angles[k] if c == 's' else slides[k]).key() for k, c in enumerate(pat)}
+        inside = inside_range(lo, hi, coords=own)
+        lo_k = {Rat.lift(x).key() for x in lo}
+        hi_k = {Rat.lift(x).key() for x in hi}
+
+        def decide(nm):
+          r = inside(nm)
+          if r is not None or not avn._is_bool_name(nm) or nm[1] != '<':
+            return r
+          a, b = nm[2], nm[3]
+          if a in foreign and (b in lo_k or b in hi_k):
+            return 1        # foreign < lo, foreign < hi: below the range
+          if b in foreign and (a in lo_k or a in hi_k):
+            return 0
+          return None
+        set_scenario(decide)
+        res = {}
+        for lim in (True, False):
+          dof = Struct('DoF', {'motion': motion, 'limit': (lo, hi) if lim else None})
+          res[lim] = _spring_kernel(I, fname, ndof, lk, j, jd, dof, tau)
+        return same(res[True], res[False])
+      kinds = ' then '.join('slide' if c == 's' else 'hinge' for c in pat)
+      trials(rep, tier, 'R6.2', 'spring.joints.%s [%s]: a limit acts on its own coordinate only' % (fname, kinds),
+             U.func('%s.%s' % (SJ, fname)).where(), '%s(limit | own coordinate inside, foreign below) == %s(limit=None)' % (fname, fname),
+             'the range of a %s stack acts on a quantity that is not the coordinate of that dof (the rotation angle of a slide / '
+             'the offset of a hinge): a limit that is not reached changes the joint force' % kinds, body)
+
+
 def positional_limits(U, rep, tier):
   """_sphericalize.pad_x_dof + _three_dof_joint_update: limits not reached == no limits."""
   fs = U.func(PJ + '._sphericalize')
@@ -784,6 +836,7 @@ def run(U, rep, tier):
   world_immovable(U, rep, tier)
   contacts(U, rep, tier)
   spring_limits(U, rep, tier)
+  spring_limits_mixed(U, rep, tier)
   positional_limits(U, rep, tier)
   generalized_limits(U, rep)
   push_only(U, rep)
